@@ -9,7 +9,7 @@
 //   {"id":..,"batches":[[n,"o|p|t"],..],"fails":[k,..],"fail_from":k|-1,"steps":[{"op":..,"k":..,"ms":..},..]}
 //   steps: batch (deliver the next frame, wait until the consumer took it and onStream is idle
 //          again or 40 ms passed) | hold k (SendDataResponse call number k blocks until release)
-//          | release | waitsend k | sleep ms | end (source returns io.EOF)
+//          | release | release1 k | waitsend k | sleep ms | end (source returns io.EOF)
 // $VERIF_C16_OUT: one JSON line per case:
 //   {"id":..,"events":["c<i>:<o>:<points>","s:<ack>:<from>-<to>,..|-:<1|0>",..],"ret":"<class>",
 //    "wcounts":[writer.RecordCount() after each batch],"rcounts":[reader.RecordCount() after each record]}
@@ -383,6 +383,11 @@ func verifRunCase(c verifCase) (res verifResult) {
 		case "release":
 			l.mu.Lock()
 			l.hold = map[int]bool{}
+			l.cond.Broadcast()
+			l.mu.Unlock()
+		case "release1": // release only the hold on SendDataResponse call number k
+			l.mu.Lock()
+			delete(l.hold, st.K)
 			l.cond.Broadcast()
 			l.mu.Unlock()
 		case "waitsend":
